@@ -276,6 +276,18 @@ def run(spec, rec):
                 # mean number of derived alleles is (ploidy*nind) * x
                 mean = sum(i * Numerics.BetaBinomConvolution(i, nind, al, be, ploidy=ploidy) for i in range(ploidy * nind + 1))
                 rec.close("betabinom-mean", abs(mean - ploidy * nind * xv) / (ploidy * nind), 10 * lgamma_tol(F, ploidy * nind), site="Numerics.BetaBinomConvolution", tags=tags)
+                # the same alpha with another beta (and the same beta with another alpha) right afterwards: a memo keyed on too
+                # little of (i, n, alpha, beta) answers these from the previous distribution
+                for al2, be2 in ((al, 1.7 * be + 0.3), (0.6 * al + 0.2, be)):
+                    F2 = 1.0 / (1.0 + al2 + be2)
+                    t2 = dict(tags, after="same-alpha" if al2 == al else "same-beta")
+                    ok2, pmf = rec.noraise("bbc-returns", lambda: [Numerics.BetaBinomConvolution(i, nind, al2, be2, ploidy=ploidy) for i in range(ploidy * nind + 1)],
+                                           site="Numerics.BetaBinomConvolution", tags=t2)
+                    if ok2:
+                        rec.close("betabinom-sum-one", abs(sum(pmf) - 1), lgamma_tol(F2, ploidy * nind), site="Numerics.BetaBinomConvolution", tags=t2, observed=sum(pmf))
+                        m2 = sum(i * p for i, p in enumerate(pmf))
+                        rec.close("betabinom-mean", abs(m2 - ploidy * nind * al2 / (al2 + be2)) / (ploidy * nind), 10 * lgamma_tol(F2, ploidy * nind),
+                                  site="Numerics.BetaBinomConvolution", tags=t2)
     elif kind == "refine":
         # semi-analytic vs direct are different quadratures of the same integral: O(h^2) apart on smooth densities
         for ci in range(spec["n"]):
